@@ -316,6 +316,13 @@ impl<S: StoredVec<I = usize, T = usize>, G: StoredVec<I = usize, T = usize>> Cas
         }
         // the pass presented its version before it failed: what the header records now is the reference
         if t.header().computed_version() == presented { self.ref_recorded = Some(presented); }
+        // what the failed pass produced so far was produced under the version it presented (a later `twrite` persists both)
+        if let Ok(cur) = catch_unwind(AssertUnwindSafe(|| t.collect())) {
+            if !cur.is_empty() {
+                self.produced.push((cur, t.header().computed_version()));
+                if self.produced.len() > 8 { let _ = self.produced.remove(0); }
+            }
+        }
         // whatever the failed pass left in memory (a new recorded version, buffered results) has not been written
         if t.header().computed_version() != recorded_before || t.len() != t.stored_len() { self.version_unpersisted = true; }
         self.ver_at_compute = None;
